@@ -63,6 +63,9 @@ for t, c in FT.items():
     U.add('or2_' + t, [(c, 1)], [(c, 4), (c, 9)], 'stm(o, glm::orientate2(a[0])); stm(o2, glm::orientate3(a[0]));')
     U.add('qeul_' + t, [(c, 3)], [(c, 4), (c, 9)], 'glm::qua<%s> q(%s(a)); stq(o, q); stm(o2, glm::mat3_cast(q));' % (c, V3))
     U.add('eulq_' + t, [(c, 4)], [(c, 4), (c, 3)], 'auto q=%s(a); auto e=glm::eulerAngles(q); stq(o, glm::qua<%s>(e)); stv(o2, e);' % (Q, c))
+    U.add('qc3_' + t, [(c, 9)], [(c, 4)], 'stq(o, glm::quat_cast(ldm<3,3,%s>(a)));' % c)
+    U.add('qc4_' + t, [(c, 16)], [(c, 4), (c, 4)], 'auto m=ldm<4,4,%s>(a); stq(o, glm::quat_cast(m)); stq(o2, glm::qua<%s>(m));' % (c, c))
+    U.add('pyr_' + t, [(c, 4)], [(c, 3), (c, 3)], 'auto q=%s(a); o[0]=glm::pitch(q); o[1]=glm::yaw(q); o[2]=glm::roll(q); stv(o2, glm::eulerAngles(q));' % Q)
 UW = U.clone('c04w', defines=['GLM_FORCE_QUAT_DATA_WXYZ'])
 UNITS = {'xyzw': U, 'wxyz': UW}
 def units(tier): return [U, UW]
@@ -136,6 +139,11 @@ class Trig:
             return z3.RealVal(repr(getattr(math, fn)(*a)))
         return s._calls(fn)[k][0]
     def inv_arg(s, fn, k, j, X): return X if is_num(X) else s._calls(fn)[k][1][j]
+    def atan2(s, y, x):
+        """atan2(y, x) as the SAME table variable the executed code obtains for these arguments (same argument polynomial -> same variable; otherwise a variable tied to
+        the code's by the congruence axiom 'equal arguments -> equal value'); numerically the libm value"""
+        if is_num(y) and is_num(x): return z3.RealVal(repr(math.atan2(float(z3val_to_fraction(y)), float(z3val_to_fraction(x)))))
+        return realtrig.trig_var(s.ex, 'atan2', (y, x))
 def Rx(T, a):
     c, s = T.cos(a), T.sin(a); return [[1, 0, 0], [0, c, -s], [0, s, c]]
 def Ry(T, a):
@@ -219,6 +227,40 @@ def job_roundtrip(lay, t, fns=('rt', 'rt4')):
         for f in fns:
             chk(S, Un, '%s_%s' % (f, t), spec, lambda i: [unit(i[0])], bounds='all unit q (all four largest-component branches); equal squares + parallel to q <=> result in {q,-q}',
                 mutant=lambda i, o: [('m', REq(o[0][1].r, i[0][1]))])
+    return run
+
+def absle(x, e): return z3.And(x <= e, -x <= e)
+NAMES = 'wxyz'
+def pivot_candidates(Rm):
+    """4 q_k^2 - 1 for k = w,x,y,z, written in the entries of the rotation matrix rows[r][c] of a unit quaternion (trace identities)"""
+    d0, d1, d2 = Rm[0][0], Rm[1][1], Rm[2][2]
+    return [d0 + d1 + d2, d0 - d1 - d2, d1 - d0 - d2, d2 - d0 - d1]
+def pivot_pairs(Rm):
+    """4 q_j q_k (j < k over w,x,y,z) in the entries of the rotation matrix of a unit quaternion"""
+    return {(0, 1): Rm[2][1] - Rm[1][2], (0, 2): Rm[0][2] - Rm[2][0], (0, 3): Rm[1][0] - Rm[0][1],
+            (1, 2): Rm[1][0] + Rm[0][1], (1, 3): Rm[0][2] + Rm[2][0], (2, 3): Rm[2][1] + Rm[1][2]}
+def job_pivot(lay, t, fns=('qc3', 'qc4')):
+    """decision level of quat_cast on a FREE symbolic matrix (no unit-quaternion hypothesis): whichever of the four candidates 4q_k^2-1 is strictly the largest, the component k
+    of the result is the pivot +sqrt(candidate+1)/2 (so the code divides by the largest available pivot, never by a small one), and every other component j is
+    (4 q_j q_k)/(4 pivot).  Everything is stated on inputs and outputs only, hence replayable natively."""
+    Un = UNITS[lay]
+    def run(S):
+        def mk(n, outs):
+            def spec(i, o, T):
+                Rm = [[i[0][c * n + r] for c in range(3)] for r in range(3)]        # column-major input, upper-left 3x3
+                cand = pivot_candidates(Rm); pair = pivot_pairs(Rm); g = []
+                for oi in outs:
+                    r = [rv(x) for x in o[oi]]; tag = '' if oi == 0 else 'qua(m).'
+                    for k in range(4):
+                        big = z3.And(*[cand[k] > cand[j] for j in range(4) if j != k])
+                        g += [('%spivot=%s.sign' % (tag, NAMES[k]), RGoal('ge', r[k], ZERO, big)), ('%spivot=%s.value' % (tag, NAMES[k]), RGoal('eq', 4 * r[k] * r[k], cand[k] + 1, big))]
+                        g += [('%spivot=%s.other[%s]' % (tag, NAMES[k], NAMES[j]), RGoal('eq', 4 * r[j] * r[k], pair[(min(j, k), max(j, k))], big)) for j in range(4) if j != k]
+                return g
+            return spec
+        box = lambda i: [z3.And(x >= -1, x <= 1) for x in i[0]]
+        for f in fns:
+            n, outs = (3, (0,)) if f == 'qc3' else (4, (0, 1))
+            chk(S, Un, '%s_%s' % (f, t), mk(n, outs), box, bounds='every real matrix with entries in [-1,1] (not only rotation matrices); all four largest-candidate branches; ties between candidates excluded')
     return run
 
 def job_product(lay, t):
@@ -353,6 +395,35 @@ def job_euler(t, names, lay='xyzw'):
                     mutant=lambda i, o, n=n: [('m', REq(o[0][1].r, -o[0][1].r + 1))])
     return run
 
+def euler_spec_args(q):
+    """arguments of the documented extraction for R(q) = Rz(roll) Ry(yaw) Rx(pitch): pitch = atan2(R21, R22), yaw = asin(-R20), roll = atan2(R10, R00) (rows[r][c] of the
+    rotation matrix of q, written with the mathematical v -> q v q* matrix, not with glm's polynomials)"""
+    Rm = rotmat(q)
+    return dict(yP=Rm[2][1], xP=Rm[2][2], sY=-Rm[2][0], yR=Rm[1][0], xR=Rm[0][0])
+def job_eulerq(lay, t):
+    """pitch/yaw/roll/eulerAngles of a unit quaternion, INCLUDING the guarded singular branches (decision level + value level)"""
+    Un = UNITS[lay]; eps = EPS[t]
+    def run(S):
+        box = {}
+        def terms(q, T):
+            A = euler_spec_args(q)
+            A['gP'] = z3.And(absle(A['xP'], eps), absle(A['yP'], eps)); A['gR'] = z3.And(absle(A['xR'], eps), absle(A['yR'], eps))
+            A['P.sing'] = 2 * T.atan2(q[1], q[0]); A['P.reg'] = T.atan2(A['yP'], A['xP']); A['R.reg'] = T.atan2(A['yR'], A['xR'])
+            return A
+        def setup(res, T):
+            terms(res.ins[0], T); return []         # creates the specification's atan2 applications in the executor's table (same variable as the code's when the arguments agree)
+        def spec(i, o, T):
+            q = i[0]; A = terms(q, T); g = []
+            for oi, tag in ((0, ''), (1, 'eulerAngles.')):
+                P, Y, Rl = [rv(x) for x in o[oi]]
+                g += [(tag + 'pitch.singular==2atan2(x,w)', RGoal('eq', P, A['P.sing'], A['gP'])), (tag + 'pitch.regular==atan2(R21,R22)', RGoal('eq', P, A['P.reg'], z3.Not(A['gP']))),
+                      (tag + 'roll.singular==0', RGoal('eq', Rl, ZERO, A['gR'])), (tag + 'roll.regular==atan2(R10,R00)', RGoal('eq', Rl, A['R.reg'], z3.Not(A['gR']))),
+                      (tag + 'yaw.sin==-R20', REq(T.sin(Y), A['sY'])), (tag + 'yaw.cos>=0', RGoal('ge', T.cos(Y), ZERO))]
+            return g
+        chk(S, Un, 'pyr_' + t, spec, lambda i: [unit(i[0])], setup=setup,
+            bounds='all unit q; guard |R22|,|R21| <= epsilon<T>() (pitch) / |R00|,|R10| <= epsilon<T>() (roll) decided on the exact values; atan2/asin as shared function applications')
+    return run
+
 def fp_canon(t, memo=None):
     """sort the operands of IEEE add/mul (commutative, single NaN in SMT-LIB FP) so that clang's operand-order choices do not matter"""
     memo = {} if memo is None else memo
@@ -402,7 +473,7 @@ def jobs(tier):
         for t in FT:
             J += [('rotate_%s_%s' % (lay, t), job_rotate(lay, t)), ('roundtrip_%s_%s' % (lay, t), job_roundtrip(lay, t, ('rt', 'rt4') if q else ('rt', 'rt4', 'rtc', 'rtg'))),
                   ('product_%s_%s' % (lay, t), job_product(lay, t)), ('axisangle_%s_%s' % (lay, t), job_axisangle(lay, t)), ('twovec_%s_%s' % (lay, t), job_twovec(lay, t)),
-                  ('ctor_%s_%s' % (lay, t), job_ctor(lay, t))]
+                  ('ctor_%s_%s' % (lay, t), job_ctor(lay, t)), ('pivot_%s_%s' % (lay, t), job_pivot(lay, t)), ('eulerq_%s_%s' % (lay, t), job_eulerq(lay, t))]
     for t in FT:
         names = ['X', 'Y', 'Z', 'dX', 'dY', 'dZ'] + EULER2 + EULER3 + ['ypr', 'or2', 'qeul']
         J.append(('euler_wxyz_%s' % t, job_euler(t, ['qeul'], 'wxyz')))
